@@ -381,6 +381,32 @@ theorem slow_simplex_direct_start_partial {tol : K} (ht : 0 < tol) {lm : LinMode
     ∃ T, intoTableau tol stallExtra phase1Limit (stdK s) = .ok T ∧ CanonicalFor T (stdK s) :=
   direct_start_canonicalFor ht hW hs stallExtra phase1Limit hN hdir
 
+/-- **the two-phase start provides the interface too** (C14 `two_phase_start_canonical_partial` with its shape
+hypotheses discharged by C13 `std_shape`): the tableau returned by `into_tableau_two_phase` — phase 1, artificial
+drive-out, redundant-row drop, cost restoration — is `CanonicalFor` the standard form.  PARTIAL: `tol > 0` and the three
+decidable facts about the run that `two_phase_start_canonical_partial` needs (phase-1 result of value exactly `0` with a
+non-negative basic solution; the rows dropped as redundant have exactly-zero structural entries).  With
+`Props.C14.into_tableau_two_phase_branch` (`into_tableau` IS the two-phase start when the direct one is unavailable)
+this removes the hypothesis `CanonicalFor T (stdK s)` from `slow_simplex_optimal_exact` / `slow_simplex_unbounded_exact`
+on that branch. -/
+theorem slow_simplex_two_phase_start_partial {tol : K} (ht : 0 < tol) {lm : LinModel (Ext K)} (hW : WF lm)
+    {s : StdModel (Ext K)} (hs : standardize lm = .ok s) (stallExtra phase1Limit : Nat)
+    (hv : (TwoPhase.phase1Final tol stallExtra phase1Limit (stdK s)).value = 0)
+    (hF : Feasible (TwoPhase.phase1Final tol stallExtra phase1Limit (stdK s)))
+    (hd : ∀ r ∈ (TwoPhase.driveOutResult tol stallExtra phase1Limit (stdK s)).2.2.2, ∀ j, j < (stdK s).vars.length →
+      nth (row (TwoPhase.driveOutResult tol stallExtra phase1Limit (stdK s)).1 r) j = 0)
+    {T : Tab K} (h : twoPhase tol stallExtra phase1Limit (stdK s) = .ok T) : CanonicalFor T (stdK s) := by
+  obtain ⟨hrect, hobj, _⟩ := Props.C13.std_shape lm hW hs
+  have hrows : ∀ r ∈ (stdK s).rows, r.coeffs.length = (stdK s).vars.length := by
+    intro r hr
+    simp only [stdK, List.mem_map] at hr
+    obtain ⟨r0, hr0, rfl⟩ := hr
+    simpa using hrect r0 hr0
+  have hobj' : (stdK s).objective.length = (stdK s).vars.length := by simpa using hobj
+  obtain ⟨hC, hO, hS, hFe, hfl, hoff⟩ :=
+    Props.C14.two_phase_start_canonical_partial ht (stdK s) stallExtra phase1Limit hrows hobj' hv hF hd h
+  exact ⟨hC, hO, hS, hFe, hfl, hoff⟩
+
 /-! ### the built-in simplex honours the solver contract that C03's composition assumes
 
 `Rooc/Proofs/ComposeSem.lean` relates the two readings of a linear model: by NAME (`Sem.linFeasible`,
